@@ -57,10 +57,16 @@ universe, a NewType, an unsubscripted `typing` alias, `Any`, or an object outsid
 universe (`opaque`, e.g. the builtin `TimeoutError`; only ever reached through a shadowed builtin). -/
 inductive NameTarget where
   | cls (c : Cls) | newtype (n : Nat) (c : Cls) | bare (c : Cls) | anyT | opaque (k : Nat)
+  | objv (k : Nat)      -- a module / class / instance that is only used to reach its attributes (`M.N`)
   deriving DecidableEq, Repr, Inhabited
 
-/-- name lookup: the object a name is bound to, `none` = undefined -/
+/-- lookup: the object a name is bound to, `none` = undefined. Attribute lookup `getattr(obj k, a)` lives
+in the same function under the key `attrKey k a` (names are below `attrBase`). -/
 abbrev Lookup := Nat → Option NameTarget
+
+def attrBase : Nat := 1000000
+/-- the key of attribute `a` of container object `k` -/
+def attrKey (k a : Nat) : Nat := attrBase + k * 1000 + a
 
 /-- Annotation expression syntax. `old` = the `typing` alias spelling (`List[int]`, `Tuple[...]`,
 `Type[...]`), otherwise the builtin / `collections.abc` class is subscripted. -/
@@ -86,6 +92,7 @@ inductive AnnExpr where
   | bor (a b : AnnExpr)                             -- `a | b`
   | str (e : AnnExpr)                               -- `'e'` (a string / forward reference)
   | name (n : Nat)                                  -- a name looked up in an environment (`Lookup`)
+  | dotted (n : Nat) (path : List Nat)              -- `N.a₁.….aₖ`: a name and a chain of attributes
   deriving Repr, Inhabited
 
 /-- The outcome of evaluating an annotation: the value, the number of errors shown, and whether the
@@ -115,6 +122,7 @@ def NameTarget.ty : NameTarget → Ty
   | .bare c => rtBare c
   | .anyT => .any
   | .opaque k => rtCls (1000 + k)
+  | .objv k => rtCls (2000 + k)      -- a module as an annotation: unsupported (the code reports an invalid annotation)
 
 /-- `UnpackedValue.get_elements` (value.py:2663) followed by the fallback of
 `_make_sequence_value` :1294 (`elements is None` → one error, `[(True, Any)]`). -/
@@ -151,6 +159,22 @@ def mkSub : Ty → Ty
 
 /-- `annotate_value(origin, metadata)` (value.py:2810): no metadata → `origin`. -/
 def annotateK (k : Nat) (t : Ty) : Ty := if k == 0 then t else annotate t
+
+/-- `visit_Attribute` :989 → `ctx.get_attribute` :183 hop by hop: `getattr` on the object reached so far. -/
+def chain (look : Lookup) : NameTarget → List Nat → Option NameTarget
+  | t, [] => some t
+  | .objv k, a :: p =>
+    match look (attrKey k a) with
+    | some t => chain look t p
+    | none => none
+  | _, _ :: _ => none
+
+/-- a dotted name: the root by name lookup, then the attribute chain; `none` = one error (an undefined
+root, or the first missing attribute — after it `get_attribute` passes `Any[error]` on silently) -/
+def resolveDotted (look : Lookup) (n : Nat) (p : List Nat) : Option NameTarget :=
+  match look n with
+  | some t => chain look t p
+  | none => none
 
 mutual
 /-- Does the expression contain a starred member outside string constants? (`_Visitor`'s first
@@ -238,6 +262,10 @@ def astEval (look : Lookup) (au : Bool) : AnnExpr → Option Res
     match look n with
     | some t => ok t.ty
     | none => errAny                            -- "Undefined name … used in annotation", Any[error]
+  | .dotted n p =>                              -- visit_Attribute :989 → `ctx.get_attribute` :183
+    match resolveDotted look n p with
+    | some t => ok t.ty
+    | none => errAny
 /-- arguments evaluated with `_type_from_value(member, ctx)` (no `allow_unpack`) -/
 def astEvalL (look : Lookup) : List AnnExpr → Option (List Ty × Nat)
   | [] => some ([], 0)
@@ -297,6 +325,10 @@ def rtEval (look : Lookup) (au : Bool) : AnnExpr → Option Res
     match look n with
     | some t => ok t.ty
     | none => errAny
+  | .dotted n p =>
+    match resolveDotted look n p with
+    | some t => ok t.ty
+    | none => errAny
 def rtEvalL (look : Lookup) : List AnnExpr → Option (List Ty × Nat)
   | [] => some ([], 0)
   | e :: es =>
@@ -333,6 +365,7 @@ def NameTarget.toAnn : NameTarget → AnnExpr
   | .bare c => .bare c
   | .anyT => .anyT
   | .opaque k => .cls (1000 + k)
+  | .objv k => .cls (2000 + k)
 
 abbrev Bindings := List (Nat × NameTarget)
 
@@ -346,7 +379,17 @@ structure NameEnv where
   early : Bindings
   late : Bindings
   builtins : Bindings
+  /-- what `getattr(object k, a)` gives, under the key `attrKey k a` — by whatever mechanism Python has for
+  it: a `__dict__` entry, a submodule, a module-level `__getattr__`, a metaclass `__getattr__`, a property, the
+  MRO, an instance attribute -/
+  attrs : Bindings := []
   deriving Repr, Inhabited
+
+/-- **The one attribute lookup of every route** (`Context.get_attribute` annotations.py:183 — shared by the
+visitor-backed context, `AnnotationsContext` and `RuntimeEvaluator` — is `getattr`; CPython evaluating
+`M.N` is `getattr`): name keys go to the route's name lookup, attribute keys to the environment's table. -/
+def withAttrs (attrs : Bindings) (f : Lookup) : Lookup := fun n =>
+  if n < attrBase then f n else attrs.get n
 
 /-- `StackedScopes.get_with_scope`: the innermost scope that binds the name -/
 def scopeLookup : List Bindings → Lookup
@@ -354,16 +397,16 @@ def scopeLookup : List Bindings → Lookup
   | s :: rest, n => if s.has n then s.get n else scopeLookup rest n
 
 /-- `NameCheckVisitor.resolve_name` for an annotation of a module-level / nested def -/
-def visLookup (env : NameEnv) : Lookup := scopeLookup [env.late, env.builtins]
+def visLookup (env : NameEnv) : Lookup := withAttrs env.attrs (scopeLookup [env.late, env.builtins])
 
 /-- `Context.get_name_from_globals` (annotations.py:176) with `globals = f.__globals__` -/
-def globalsLookup (env : NameEnv) : Lookup := fun n =>
+def globalsLookup (env : NameEnv) : Lookup := withAttrs env.attrs fun n =>
   if env.late.has n then env.late.get n
   else if env.builtins.has n then env.builtins.get n
   else none
 
 /-- `_DefaultContext.get_name` (annotations.py:918) without a visitor, `globals = f.__globals__` -/
-def defaultLookup (env : NameEnv) : Lookup := fun n =>
+def defaultLookup (env : NameEnv) : Lookup := withAttrs env.attrs fun n =>
   if env.late.has n then env.late.get n
   else if env.builtins.has n then env.builtins.get n
   else none
@@ -373,6 +416,7 @@ mutual
 the object it is bound to (a name `look` does not bind stays: an undefined name) -/
 def resolveV (look : Lookup) : AnnExpr → AnnExpr
   | .name n => match look n with | some t => t.toAnn | none => .name n
+  | .dotted n p => match resolveDotted look n p with | some t => t.toAnn | none => .dotted n p
   | .gen o c args => .gen o c (resolveVL look args)
   | .tup o ms => .tup o (resolveVL look ms)
   | .tupV o e => .tupV o (resolveV look e)
